@@ -19,6 +19,9 @@ Extract/C10x.vos Extract/C10x.vok Extract/C10x.required_vos: Extract/C10x.v Mode
 Extract/C14x.vo Extract/C14x.glob Extract/C14x.v.beautified Extract/C14x.required_vo: Extract/C14x.v Model/LspText.vo Spec/C14.vo
 Extract/C14x.vio: Extract/C14x.v Model/LspText.vio Spec/C14.vio
 Extract/C14x.vos Extract/C14x.vok Extract/C14x.required_vos: Extract/C14x.v Model/LspText.vos Spec/C14.vos
+Extract/C17x.vo Extract/C17x.glob Extract/C17x.v.beautified Extract/C17x.required_vo: Extract/C17x.v Model/Debug.vo Spec/C17Judge.vo
+Extract/C17x.vio: Extract/C17x.v Model/Debug.vio Spec/C17Judge.vio
+Extract/C17x.vos Extract/C17x.vok Extract/C17x.required_vos: Extract/C17x.v Model/Debug.vos Spec/C17Judge.vos
 Extract/C18x.vo Extract/C18x.glob Extract/C18x.v.beautified Extract/C18x.required_vo: Extract/C18x.v gen/C18Tables.vo Model/Control.vo Spec/C18.vo Spec/C18Judge.vo
 Extract/C18x.vio: Extract/C18x.v gen/C18Tables.vio Model/Control.vio Spec/C18.vio Spec/C18Judge.vio
 Extract/C18x.vos Extract/C18x.vok Extract/C18x.required_vos: Extract/C18x.v gen/C18Tables.vos Model/Control.vos Spec/C18.vos Spec/C18Judge.vos
@@ -31,6 +34,9 @@ Model/CrashFs.vos Model/CrashFs.vok Model/CrashFs.required_vos: Model/CrashFs.v
 Model/Cycle.vo Model/Cycle.glob Model/Cycle.v.beautified Model/Cycle.required_vo: Model/Cycle.v Model/Io.vo
 Model/Cycle.vio: Model/Cycle.v Model/Io.vio
 Model/Cycle.vos Model/Cycle.vok Model/Cycle.required_vos: Model/Cycle.v Model/Io.vos
+Model/Debug.vo Model/Debug.glob Model/Debug.v.beautified Model/Debug.required_vo: Model/Debug.v 
+Model/Debug.vio: Model/Debug.v 
+Model/Debug.vos Model/Debug.vok Model/Debug.required_vos: Model/Debug.v 
 Model/Fb.vo Model/Fb.glob Model/Fb.v.beautified Model/Fb.required_vo: Model/Fb.v 
 Model/Fb.vio: Model/Fb.v 
 Model/Fb.vos Model/Fb.vok Model/Fb.required_vos: Model/Fb.v 
@@ -82,6 +88,12 @@ Proofs/C10Proofs.vos Proofs/C10Proofs.vok Proofs/C10Proofs.required_vos: Proofs/
 Proofs/C14Proofs.vo Proofs/C14Proofs.glob Proofs/C14Proofs.v.beautified Proofs/C14Proofs.required_vo: Proofs/C14Proofs.v Model/LspText.vo Spec/C14.vo
 Proofs/C14Proofs.vio: Proofs/C14Proofs.v Model/LspText.vio Spec/C14.vio
 Proofs/C14Proofs.vos Proofs/C14Proofs.vok Proofs/C14Proofs.required_vos: Proofs/C14Proofs.v Model/LspText.vos Spec/C14.vos
+Proofs/C17Inv.vo Proofs/C17Inv.glob Proofs/C17Inv.v.beautified Proofs/C17Inv.required_vo: Proofs/C17Inv.v Model/Debug.vo
+Proofs/C17Inv.vio: Proofs/C17Inv.v Model/Debug.vio
+Proofs/C17Inv.vos Proofs/C17Inv.vok Proofs/C17Inv.required_vos: Proofs/C17Inv.v Model/Debug.vos
+Proofs/C17Proofs.vo Proofs/C17Proofs.glob Proofs/C17Proofs.v.beautified Proofs/C17Proofs.required_vo: Proofs/C17Proofs.v Model/Debug.vo Proofs/C17Inv.vo
+Proofs/C17Proofs.vio: Proofs/C17Proofs.v Model/Debug.vio Proofs/C17Inv.vio
+Proofs/C17Proofs.vos Proofs/C17Proofs.vok Proofs/C17Proofs.required_vos: Proofs/C17Proofs.v Model/Debug.vos Proofs/C17Inv.vos
 Proofs/C18Proofs.vo Proofs/C18Proofs.glob Proofs/C18Proofs.v.beautified Proofs/C18Proofs.required_vo: Proofs/C18Proofs.v gen/C18Tables.vo Model/Control.vo Spec/C18.vo
 Proofs/C18Proofs.vio: Proofs/C18Proofs.v gen/C18Tables.vio Model/Control.vio Spec/C18.vio
 Proofs/C18Proofs.vos Proofs/C18Proofs.vok Proofs/C18Proofs.required_vos: Proofs/C18Proofs.v gen/C18Tables.vos Model/Control.vos Spec/C18.vos
@@ -127,6 +139,9 @@ Properties/C10.vos Properties/C10.vok Properties/C10.required_vos: Properties/C1
 Properties/C14.vo Properties/C14.glob Properties/C14.v.beautified Properties/C14.required_vo: Properties/C14.v Model/LspText.vo Spec/C14.vo Proofs/C14Proofs.vo
 Properties/C14.vio: Properties/C14.v Model/LspText.vio Spec/C14.vio Proofs/C14Proofs.vio
 Properties/C14.vos Properties/C14.vok Properties/C14.required_vos: Properties/C14.v Model/LspText.vos Spec/C14.vos Proofs/C14Proofs.vos
+Properties/C17.vo Properties/C17.glob Properties/C17.v.beautified Properties/C17.required_vo: Properties/C17.v Model/Debug.vo Proofs/C17Inv.vo Proofs/C17Proofs.vo
+Properties/C17.vio: Properties/C17.v Model/Debug.vio Proofs/C17Inv.vio Proofs/C17Proofs.vio
+Properties/C17.vos Properties/C17.vok Properties/C17.required_vos: Properties/C17.v Model/Debug.vos Proofs/C17Inv.vos Proofs/C17Proofs.vos
 Properties/C18.vo Properties/C18.glob Properties/C18.v.beautified Properties/C18.required_vo: Properties/C18.v gen/C18Tables.vo Model/Control.vo Spec/C18.vo Proofs/C18Proofs.vo
 Properties/C18.vio: Properties/C18.v gen/C18Tables.vio Model/Control.vio Spec/C18.vio Proofs/C18Proofs.vio
 Properties/C18.vos Properties/C18.vok Properties/C18.required_vos: Properties/C18.v gen/C18Tables.vos Model/Control.vos Spec/C18.vos Proofs/C18Proofs.vos
@@ -151,6 +166,9 @@ Spec/C09Judge.vos Spec/C09Judge.vok Spec/C09Judge.required_vos: Spec/C09Judge.v 
 Spec/C14.vo Spec/C14.glob Spec/C14.v.beautified Spec/C14.required_vo: Spec/C14.v Model/LspText.vo
 Spec/C14.vio: Spec/C14.v Model/LspText.vio
 Spec/C14.vos Spec/C14.vok Spec/C14.required_vos: Spec/C14.v Model/LspText.vos
+Spec/C17Judge.vo Spec/C17Judge.glob Spec/C17Judge.v.beautified Spec/C17Judge.required_vo: Spec/C17Judge.v Model/Debug.vo
+Spec/C17Judge.vio: Spec/C17Judge.v Model/Debug.vio
+Spec/C17Judge.vos Spec/C17Judge.vok Spec/C17Judge.required_vos: Spec/C17Judge.v Model/Debug.vos
 Spec/C18.vo Spec/C18.glob Spec/C18.v.beautified Spec/C18.required_vo: Spec/C18.v 
 Spec/C18.vio: Spec/C18.v 
 Spec/C18.vos Spec/C18.vok Spec/C18.required_vos: Spec/C18.v 
